@@ -250,7 +250,21 @@ def run_files(c, res):
                         continue
                     one = dict(kind='file', layout=lay)
                     judge_file(res, lay, one)
-    res.sample({'delimiter': d, 'example_extra': combos[1][0], 'stext': combos[1][1], 'analysis': combos[1][2]})
+    # every order of the four segments in the file (the standard fixes none), offsets of ANALYSIS in the HEADER or only in TEXT
+    import itertools
+    for version in ('FCS3.0', 'FCS2.0', 'FCS3.1'):
+        segs = ['text', 'stext', 'data', 'analysis'] if version != 'FCS2.0' else ['text', 'data', 'analysis']
+        for order in itertools.permutations(segs):
+            for extra, stext, an in combos[1::6]:
+                for an_off in (('header', 'text') if version != 'FCS2.0' else ('header',)):
+                    for lead in (True, False):
+                        lay = dict(version=version, datatype='I', byteord='1,2,3,4', bits=[16, 16], ranges=[1024, 1024], pad=(0, 5)[lead],
+                                   events=[[1, 2], [3, 4]], delim=d, extra=extra, analysis=an, analysis_leading=lead, analysis_offsets=an_off,
+                                   seg_order=list(order) + (['stext'] if version == 'FCS2.0' else []))
+                        if version != 'FCS2.0':
+                            lay.update(stext=stext, stext_leading=lead)
+                        judge_file(res, lay, dict(kind='file', layout=lay))
+    res.sample({'delimiter': d, 'example_extra': combos[1][0], 'stext': combos[1][1], 'analysis': combos[1][2], 'segment orders': 'all 24 (3.x) / 6 (2.0)'})
     return res
 
 
